@@ -148,13 +148,48 @@ def memS (obj : Value) : Value → Except SErr Value
   | .pair a d => if Prim.eqv obj a then .ok (.pair a d) else memS obj d
   | _ => .error typeErr
 
-/-- `(equal? x y)` as the library defines it: pairs are compared component-wise, everything else
-with `eqv?` — vectors are NOT descended into (two vectors are `equal?` only if they are the same
-object), strings are compared by content (as the native `eqv?` does) -/
-def equalS : Value → Value → Bool
-  | .pair a d, .pair a' d' => equalS a a' && equalS d d'
-  | .pair _ _, _ => false
-  | x, y => !isPair y && Prim.eqv x y
+def isVec : Value → Bool
+  | .vec _ => true
+  | _ => false
+
+/-- `vector-equal-from?` on the items still to compare: the first pair that is not `equal?`
+decides; `cmp` compares two items (`none`: that comparison has no outcome) -/
+def allEqS (cmp : Value → Value → Option Bool) : List Value → List Value → Option Bool
+  | x :: xs, y :: ys =>
+    match cmp x y with
+    | some true => allEqS cmp xs ys
+    | r => r
+  | _, _ => some true
+
+/-- `(equal? x y)` as the library defines it: structural equality on pairs AND vectors — two
+vectors are `equal?` when their cells in the store `σ` have the same length and pairwise `equal?`
+items (mutability is ignored; the same vector is still compared item by item) — and `eqv?` at all
+other leaves (strings by content, as the native `eqv?` does).
+
+Vectors are store cells and may be cyclic; the comparison then does not terminate. `equalS σ n x y`
+is the comparison cut off at nesting depth `n` (pairs and vectors both count): `some r` — the
+comparison is finite and its outcome is `r` — or `none`. `none` is also the answer for a dangling
+vector reference (no such cell: the native `vector-length` panics). -/
+def equalS (σ : Store) : Nat → Value → Value → Option Bool
+  | 0, _, _ => none
+  | n + 1, x, y =>
+    match x with
+    | .pair a d =>
+      match y with
+      | .pair a' d' =>
+        match equalS σ n a a' with
+        | some true => equalS σ n d d'
+        | r => r
+      | _ => some false
+    | .vec i =>
+      match y with
+      | .vec j =>
+        match σ.vecs[i]?, σ.vecs[j]? with
+        | some c, some c' =>
+          if c.items.length = c'.items.length then allEqS (equalS σ n) c.items c'.items else some false
+        | _, _ => none
+      | _ => some false
+    | x => some (!isPair y && Prim.eqv x y)
 
 /-- `(make-list k fill)` for an integer `k`: `k` copies, none when `k ≤ 0` -/
 def makeListS (k : Int) (fill : Value) : Value := Value.ofList (List.replicate k.toNat fill)
